@@ -111,6 +111,7 @@ func (s *State) doCall(call *ssa.Call, cc *ssa.CallCommon) ([]*State, bool) {
 	if isNoopCall(name) {
 		c.assume("A-LOG: logging/metrics/tracing/lock calls are no-ops")
 		s.bindFreshResult(call, "noop")
+		s.runGhost(fr, fmt.Sprintf("after %s#%d", anchorName, occ))
 		return nil, false
 	}
 	var fn *ssa.Function
